@@ -83,3 +83,19 @@ func init() {
 		return []*Term{f.Eq(sa, sb)}, true
 	})
 }
+
+func isPointwise(t *Term) bool {
+	if t.op == "app" {
+		switch t.name {
+		case "coins.add", "coins.sub", "coins.mulint", "coins.quoint", "deccoins.muldectrunc", "deccoins.quodectrunc":
+			return true
+		}
+	}
+	if t.op == "ite" {
+		return isPointwise(t.args[1]) || isPointwise(t.args[2])
+	}
+	if t.op == "store" {
+		return isPointwise(t.args[0])
+	}
+	return false
+}
